@@ -490,10 +490,11 @@ def _expand_token(token: str, cwd: Path, *, force_path: bool = False) -> str:
     if kind == _VARIABLE:
         return token
     if kind == _ABSOLUTE:
-        return token
+        return str(Path(token).resolve())
     if kind == _HOME:
         # ~ → /home/user, ~/foo → /home/user/foo
-        return str(home) + token[1:] if len(token) > 1 else str(home)
+        expanded = str(home) + token[1:] if len(token) > 1 else str(home)
+        return str(Path(expanded).resolve())
     if kind == _USER_HOME:
         return token
     if kind == _RELATIVE:
